@@ -114,18 +114,32 @@ def run_generic(pid, oracle, tier, seed, exhaustive_depth=None):
             hs += [("exhaustive", h) for h in bc.exhaustive_histories(exhaustive_depth)]
         lines = ["H " + h if not h.startswith("H ") else h for _, h in hs]
         hi, hm = bc.run_pair(lines, sc)
+        # the model is indifferent to names; the implementation must be too: every third history again on name tables
+        # that put a path next to the names a working file, backup or conflict copy derived from it could take
+        # (r.txt / r.tmp / r / r.txt.tmp / .r.txt.tmp / r.txt~ / r.bak ...), judged against the same model output
+        n0 = len(lines)
+        for k, mode in enumerate(["adv1", "adv2", "adv3"]):
+            idx = list(range(k, n0, 9 if tier == "quick" else 3))
+            env = dict(sc.env)
+            env["H_BISYNC_NAMES"] = mode
+            sub = vlib.run_sharded([os.path.join(vlib.BIN, "h_bisync")], [lines[i] for i in idx], env=env)
+            for i, a in zip(idx, sub):
+                hs.append((hs[i][0] + "+names-" + mode, hs[i][1]))
+                lines.append(lines[i])
+                hi.append(a)
+                hm.append(hm[i])
     hdiff, viol, kf_hits = [], [], {}
     nontrivial = set()
     skipped_clock = 0
     for (fam, h), line, a, b in zip(hs, lines, hi, hm):
         if bc.repeated_rename_conflict(a):
-            viol.append({"history": line, "why": "a conflict copy made by an earlier run was replaced by a later rename: that version exists nowhere any more", "implementation": a, "model": b})
+            viol.append({"family": fam, "history": line, "why": "a conflict copy made by an earlier run was replaced by a later rename: that version exists nowhere any more", "implementation": a, "model": b})
             continue
         if a != b:
             hdiff.append((line, a, b))
         snaps = bc.parse_out(a)
         if snaps is None or a in ("PANIC", "BADCASE") or a.startswith("CRASH"):
-            viol.append({"history": line, "why": "implementation crashed or printed garbage: %s" % a[:200]})
+            viol.append({"family": fam, "history": line, "why": "implementation crashed or printed garbage: %s" % a[:200]})
             continue
         hist = line[2:]
         fails = oracle(hist, snaps)
@@ -136,7 +150,7 @@ def run_generic(pid, oracle, tier, seed, exhaustive_depth=None):
             if k in kclasses and a == b:
                 kf_hits.setdefault(kclasses[k]["id"], []).append((line, f))
             else:
-                viol.append({"history": line, "failure": f, "implementation": a, "model": b,
+                viol.append({"family": fam, "history": line, "failure": f, "implementation": a, "model": b,
                              "note": "outside every listed known-finding class" if k not in kclasses else "in class %s but the implementation no longer behaves as the model of the pinned code" % k})
     res.cov["evaluations"] = len(kcases) + len(lines)
     res.cov["classifier_cases"] = len(kcases)
@@ -182,6 +196,9 @@ def replay(path):
     if h:
         vlib.build_model(); vlib.build_impl()
         with vlib.Scratch() as sc:
+            fam = d.get("family", "")
+            if "+names-" in fam:
+                sc.env["H_BISYNC_NAMES"] = fam.split("+names-")[1]
             a, b = bc.run_pair([h], sc)
         print("impl :", a[0]); print("model:", b[0])
         print("oracle failures:", bc.converge_oracle(h[2:], bc.parse_out(a[0]) or []))
